@@ -41,18 +41,23 @@ Proof. exact (decl_final_empty true). Qed.
    nothing an alias involves is reassigned while it is pending (g_inline_ok; chains of aliases need no
    side condition since 185d1d3). *)
 Theorem inline_preserves :
-  forall (l : list stm), g_inline_ok l = true ->
+  forall (dvs : list id) (l : list stm), g_inline_ok dvs l = true ->
   forall (fi : finterp) (ode : id -> list (option Q) -> option Q) (r : env) (x : id),
-    ~ In x (inlined l) -> sexec fi ode r (inline l) x = sexec fi ode r l x.
-Proof. intros l H fi ode. exact (inline_preserves_lemma fi ode l H). Qed.
+    ~ In x (inlined dvs l) -> sexec fi ode r (inline dvs l) x = sexec fi ode r l x.
+Proof. intros dvs l H fi ode. exact (inline_preserves_lemma fi ode dvs l H). Qed.
+
+(* a dependent variable is never one of the removed aliases (b7852b9) *)
+Theorem inlined_never_dv :
+  forall (dvs : list id) (l : list stm) (x : id), In x dvs -> ~ In x (inlined dvs l).
+Proof. exact inlined_not_dv. Qed.
 
 (* ... and the value of a removed alias is the value of the symbol it was replaced by. *)
 Theorem inline_alias_value :
-  forall (l : list stm), g_inline_ok l = true ->
+  forall (dvs : list id) (l : list stm), g_inline_ok dvs l = true ->
   forall (fi : finterp) (ode : id -> list (option Q) -> option Q) (r : env) (x : id),
-    sexec fi ode r l x = upd_map (sexec fi ode r (inline l)) fi (inline_final l nil) x.
+    sexec fi ode r l x = upd_map (sexec fi ode r (inline dvs l)) fi (inline_final dvs l nil) x.
 Proof.
-  intros l H fi ode r x. unfold inline. apply inline_alias_lemma; [exact H|]. intros y. reflexivity.
+  intros dvs l H fi ode r x. unfold inline. apply inline_alias_lemma; [exact H|]. intros y. reflexivity.
 Qed.
 
 (* rename_symbols with a renaming that is injective on the names of the model (the documented "make
@@ -85,13 +90,25 @@ Proof. intros fx l fi ode r. exact (replace_fixed_lemma fi ode fx l r). Qed.
 
 (* cleanup_model as a whole. *)
 Theorem cleanup_preserves :
-  forall (fixed : list (id * Q)) (dists : list dist) (l : list stm), g_cleanup fixed dists l = true ->
+  forall (dvs : list id) (fixed : list (id * Q)) (dists : list dist) (l : list stm),
+    g_cleanup dvs fixed dists l = true ->
   forall (fi : finterp) (ode : id -> list (option Q) -> option Q) (r : env),
     (forall th q, In (th, q) fixed -> r th = Some q) ->
     (forall k, In k (akeys (zero_map fixed dists)) -> r k = Some 0%Q) ->
-    forall x, ~ In x (inlined (declarative l)) ->
-      sexec fi ode r (cleanup_stmts fixed dists l) x = sexec fi ode r l x.
-Proof. intros fixed dists l H fi ode. exact (cleanup_preserves_lemma fi ode fixed dists l H). Qed.
+    forall x, ~ In x (inlined dvs (declarative l)) ->
+      sexec fi ode r (cleanup_stmts dvs fixed dists l) x = sexec fi ode r l x.
+Proof. intros dvs fixed dists l H fi ode. exact (cleanup_preserves_lemma fi ode dvs fixed dists l H). Qed.
+
+(* ... in particular every dependent variable keeps its value, with no side condition about it (the
+   hypothesis `~ In x (inlined ...)` above is only about auxiliary aliases like S1 = VC). *)
+Theorem cleanup_preserves_dv :
+  forall (dvs : list id) (fixed : list (id * Q)) (dists : list dist) (l : list stm),
+    g_cleanup dvs fixed dists l = true ->
+  forall (fi : finterp) (ode : id -> list (option Q) -> option Q) (r : env),
+    (forall th q, In (th, q) fixed -> r th = Some q) ->
+    (forall k, In k (akeys (zero_map fixed dists)) -> r k = Some 0%Q) ->
+    forall dv, In dv dvs -> sexec fi ode r (cleanup_stmts dvs fixed dists l) dv = sexec fi ode r l dv.
+Proof. intros dvs fixed dists l H fi ode. exact (cleanup_preserves_dv_lemma fi ode dvs fixed dists l H). Qed.
 
 (* cleanup_model's parameter set: exactly the parameters that replace_non_random_rvs does not remove
    and replace_fixed_thetas does not replace ... *)
